@@ -184,6 +184,17 @@ where
     }
 }
 
+impl<T, P, B> Connector<T, P, B>
+where
+    T: Transport,
+    P: Protocol<T::IO, B>,
+{
+    /// Has this connector started to connect (i.e. has the transport been asked for a connection)?
+    pub(in crate::client) fn has_started(&self) -> bool {
+        !matches!(self.state, ConnectorState::PollReadyTransport { .. })
+    }
+}
+
 #[allow(type_alias_bounds)]
 type ConnectorError<T: Transport, P: Protocol<T::IO, B>, B> =
     Error<<T as Transport>::Error, <P as Protocol<T::IO, B>>::Error>;
